@@ -1,2 +1,8 @@
 #!/bin/sh
-exit 0
+# Build the mirfacts driver and pre-generate the fact base of /repo's current tree (offline).
+set -e
+cd "$(dirname "$0")"
+export CARGO_NET_OFFLINE=true
+(cd tools/mirfacts && cargo build --release --offline)
+python3 -m analysis.factgen all
+echo "setup ok"
